@@ -6,7 +6,12 @@
     on_initialize_run, on_start_run and the events [es]; [pubs_run r es]: the same followed by
     on_end_run).  Every statement quantifies over EVERY stream [es] accepted by C09's prefix
     recogniser, i.e. (C09_prefix_closed) every well-formed stream cut at any point: a kill.
-    The expected values ([active], [pl_of], ...) are functions of the history alone. *)
+    The expected values ([active], [pl_of], [notices] ...) are functions of the history alone.
+
+    NOT proved here: the clause "each prompt is reported open and then closed with the command
+    that answered it" (C11_prompt_open_close).  It is checked on every run by the model/
+    implementation comparison of the topics prompt_info and prompt_info_<n> and by the oracle
+    (signature registrars:prompt-open-close), see harness/props/c11.py. *)
 From NL Require Import Events.Grammar Events.GrammarProofs Registrars.Model Registrars.Proofs Registrars.Order.
 Open Scope Z_scope.
 
@@ -27,6 +32,13 @@ Theorem C11_trace_info_once : forall r es, wf_prefix r es = true ->
     else [].
 Proof. exact trace_info_once. Qed.
 
+(** the notices published on prompt_notice are, in order, exactly one per prompt start of the
+    stream, each carrying the trace/prompt numbers and text of that start and the location of
+    the trace call that contains it *)
+Theorem C11_notice_bijection : forall r es, wf_prefix r es = true ->
+  on_topic TPromptNotice (pubs_events r es) = notices r es es.
+Proof. exact notice_bijection. Qed.
+
 (** closed out, (i): after on_end_run the published active set is () *)
 Theorem C11_closed_out_active_set : forall r es, last_nos (pubs_run r es) = [].
 Proof. exact active_set_closed. Qed.
@@ -37,7 +49,7 @@ Theorem C11_closed_out_prompt_topics : forall r es, wf_prefix r es = true ->
   (forall t, In t (trace_starts es) ->
      exists vs, on_topic (TPromptInfoFor t) (pubs_run r es) = map Some vs ++ [None]) /\
   (exists vs, on_topic TPromptNotice (pubs_run r es) = map Some vs ++ [None]).
-Proof. intros r es H. split; [exact (prompt_topic_closed r es H) | exact (notice_topic_closed r es)]. Qed.
+Proof. exact closed_out_prompt_topics. Qed.
 
 (** closed out, (iii): with the pub/sub theorems (C08): whatever the subscribers of such a topic
     did and whenever they attached to it (any interleaving [ops] of their operations with the
@@ -70,11 +82,13 @@ Example C11_example_nonvacuous :
   length (on_topic (TPromptInfoFor 2) (pubs_run 1 ex_killed)) = 3%nat /\
   on_topic TPromptNotice (pubs_run 1 ex_killed) =
     [Some (VNotice 1 1 1 3 7); Some (VNotice 1 2 2 3 8); None] /\
+  notices 1 ex_killed ex_killed = [Some (VNotice 1 1 1 3 7); Some (VNotice 1 2 2 3 8)] /\
   raised (pubs_run 1 ex_killed) = false.
 Proof. vm_compute. repeat split; reflexivity. Qed.
 
 Print Assumptions C11_active_set.
 Print Assumptions C11_trace_info_once.
+Print Assumptions C11_notice_bijection.
 Print Assumptions C11_closed_out_active_set.
 Print Assumptions C11_closed_out_prompt_topics.
 Print Assumptions C11_closed_out_subscribers_terminate.
